@@ -11,6 +11,8 @@ CONSTANTS MaxLen, WithBad, WithDup, GenDepth, Sim, Mixed, Burst,
           WithSplit, \* rows may have a node-to-node address (peer) that differs from the connect address
           SchemaPlan,\* enumerated histories: refresh; keyspace metadata (un)available; then anything
                      \* (in simulation: "keyspace metadata (un)available" is one more kind of step)
+          Overlap,   \* enumerated histories: a set-up refresh, then two steps of which the second happens
+                     \* while the first is still in progress (see OverlapSteps)
           LateEvents,\* enumerated histories end with one status event for any address (also addresses
                      \* of nodes that have just vanished or moved)
           Ordered    \* FALSE: events travel as frames, each handled on a goroutine of its own - a batch then
@@ -68,9 +70,16 @@ RevPairs(f) == {[id |-> f[a], addr |-> a] : a \in DOMAIN f}
 Exp(dd, n) == [hosts |-> Pairs(dd.hosts), byaddr |-> RevPairs(dd.byAddr), pool |-> dd.pool, pol |-> dd.pol,
                down |-> dd.down, refreshes |-> n]
 
-Rec(op, rows, fail, evs, a) ==
+\* ov: "" = the step starts when the previous one is over; "handler" / "peers" = it happens while
+\* the previous step is held - its event handler started by the flush but not yet reading its
+\* frames / its refresh having read the peer rows but not yet applied them.  In both places the
+\* held step has not touched the driver's picture yet and what it will apply is already fixed
+\* (the frames of its batch, the rows it read), so the outcome the property demands is the one of
+\* the two steps in sequence; the recorded history says where the second one landed.
+RecOv(op, rows, fail, evs, a, ov) ==
   hist' = Append(hist, [op |-> op, rows |-> Concrete(rows, Len(hist)), fail |-> fail, evs |-> evs, addr |-> a,
-                        exp |-> Exp(d', nref')])
+                        ov |-> ov, exp |-> Exp(d', nref')])
+Rec(op, rows, fail, evs, a) == RecOv(op, rows, fail, evs, a, "")
 
 Init == InitWith(<<>>) /\ hist = <<>>
 
@@ -117,12 +126,33 @@ MixedSteps ==
   \/ \E l \in (IF Sim THEN PickList ELSE {truth, Other}) : NodeRecover(l, C0addr) /\ Rec("noderecover", l, "none", <<>>, C0addr)
   \/ \E l \in (IF Sim THEN PickList ELSE {truth, Other}) : ControlLost(l) /\ Rec("ctllost", l, "none", <<>>, "")
 
+\* Overlapping steps.  Position 1: the step that will be held - a status event (held in its handler)
+\* or something that refreshes (held between reading and applying the rows).  Position 2: what
+\* arrives meanwhile - for a held handler any further event; for a held refresh a topology event
+\* or a request for an immediate refresh, after the cluster has changed again.
+SetupList == <<[id |-> "i1", addr |-> "a1", peer |-> "a1", inv |-> "ok"], [id |-> "i2", addr |-> "a2", peer |-> "a2", inv |-> "ok"]>>
+NewNode == <<Ev("NEW_NODE", "a1")>>
+Singles == {<<Ev(k, a)>> : k \in {"UP", "DOWN"}, a \in AllAddrs}
+OverlapSteps ==
+  IF Len(hist) = 0 THEN Refresh(SetupList, "none") /\ Rec("refresh", SetupList, "none", <<>>, "")
+  ELSE IF Len(hist) = 1 THEN
+    \/ \E b \in Singles : Events(truth, b) /\ Rec("events", truth, "none", b, "")
+    \/ \E l \in Lists : Refresh(l, "none") /\ Rec("refresh", l, "none", <<>>, "")
+    \/ \E l \in Lists : Events(l, NewNode) /\ Rec("events", l, "none", NewNode, "")
+  ELSE IF hist[2].op = "events" /\ hist[2].evs \in Singles THEN
+    \/ \E b \in Singles : Events(truth, b) /\ RecOv("events", truth, "none", b, "", "handler")
+    \/ \E l \in Lists : Events(l, NewNode) /\ RecOv("events", l, "none", NewNode, "", "handler")
+  ELSE
+    \/ \E l \in Lists : Events(l, NewNode) /\ RecOv("events", l, "none", NewNode, "", "peers")
+    \/ \E l \in Lists : Refresh(l, "none") /\ RecOv("refresh", l, "none", <<>>, "", "peers")
+
 \* the last step of an enumerated history with late events: one status event, any address
 LateSteps == \E b \in {<<Ev(k, a)>> : k \in {"UP", "DOWN"}, a \in EvA} : Events(truth, b) /\ Rec("events", truth, "none", b, "")
 
 Next ==
   /\ Len(hist) < GenDepth
-  /\ IF LateEvents /\ ~Sim /\ Len(hist) = GenDepth - 1 THEN LateSteps
+  /\ IF Overlap /\ ~Sim THEN OverlapSteps
+     ELSE IF LateEvents /\ ~Sim /\ Len(hist) = GenDepth - 1 THEN LateSteps
      ELSE IF SchemaPlan /\ ~Sim /\ Len(hist) = 0 THEN \E l \in {x \in CanonLists : Len(x) = MaxLen} : Refresh(l, "none") /\ Rec("refresh", l, "none", <<>>, "")
      ELSE IF SchemaPlan /\ ~Sim /\ Len(hist) = 1 THEN SchemaSteps
      ELSE \/ RefreshSteps
